@@ -269,6 +269,17 @@ class GenInterp:
             return (any if name == "any" else all)(list(args[0]))
         if name in ("min", "max"):
             return (min if name == "min" else max)(*args)
+        if name in ("map", "filter", "starmap", "itertools.starmap"):
+            fn = args[0] if args else None
+            if not isinstance(fn, Closure):
+                raise Unsupported(f"{name}() with a function the evaluator does not know", at)
+            if name == "map":
+                return [self.call_closure(fn, list(t), {}, at) for t in zip(*[list(a) for a in args[1:]])]
+            if name == "filter":
+                return [x for x in list(args[1]) if self.call_closure(fn, [x], {}, at)]
+            return [self.call_closure(fn, list(t), {}, at) for t in list(args[1])]
+        if name in ("chain", "itertools.chain"):
+            return [x for a in args for x in list(a)]
         if name == "print":
             return None
         if name == "cast":
